@@ -184,14 +184,26 @@ def _peval(e, case, env):
     return ev(e)
 
 
-def candidate_cases(ctx, f, stop_stmt, L, only_paths=None):
+def candidate_cases(ctx, f, stop_stmt, L, only_paths=None, inner=None):
     """{case: (root, frozenset of normalised filters, sort keys)} for the list expression L evaluated just before stop_stmt,
     under batch_plate_ids None / empty / non-empty"""
     N = Norm(strict=False)
     top = list(f.node.body)
     idx = next((i for i, st in enumerate(top) if st is stop_stmt or stop_stmt in list(ast.walk(st))), None)
     ctx.need(idx is not None, f"{f.site()}: anchor statement is not at the top level of the function")
-    pre = ast.FunctionDef(name="_pre", args=f.node.args, body=top[:idx] + [ast.Return(value=L)], decorator_list=[], lineno=0, col_offset=0)
+    prefix = top[:idx]
+    if inner is not None and top[idx] is not inner and isinstance(top[idx], ast.If):
+        # the expression is evaluated inside an arm of a top-level `if` (a helper call that was expanded in front of its use): the
+        # statements of the arms on the way down to it run, in order, before it
+        cur = top[idx]
+        while isinstance(cur, ast.If):
+            arm = next((a for a in (cur.body, cur.orelse) if any(inner is st or inner in list(ast.walk(st)) for st in a)), None)
+            if arm is None:
+                break
+            j = next(i for i, st in enumerate(arm) if inner is st or inner in list(ast.walk(st)))
+            prefix = prefix + arm[:j]
+            cur = arm[j]
+    pre = ast.FunctionDef(name="_pre", args=f.node.args, body=prefix + [ast.Return(value=L)], decorator_list=[], lineno=0, col_offset=0)
     try:
         ps = B.paths(pre)
     except B.Unsupported as e:
@@ -212,6 +224,10 @@ def candidate_cases(ctx, f, stop_stmt, L, only_paths=None):
             if not feasible or ret is None:
                 continue
             fl = B.flatten_filter(ret, env)
+            if fl is None and isinstance(B.resolve(ret, env), (ast.List, ast.Tuple)) and not B.resolve(ret, env).elts:
+                # the empty display: the empty selection (of the plate list as of any list)
+                results.add(("screen.plates", frozenset({("false",)}), ()))
+                continue
             if fl is None:
                 rv = B.resolve(ret, env)
                 # recognised wrong: one plate looked up per listed id (`[screen.get_plate(i) for i in batch_plate_ids]`): an id listed twice
@@ -835,6 +851,18 @@ def min_lookup(ctx):
                         "self.scores.size", "self.plate_ids.size", "len(self.scores)", "len(self.plate_ids)", "self.scores.shape[0]", "self.plate_ids.shape[0]") \
                         and U(n.value) in ("self.scores", "self.plate_ids"):
                     return n.value
+                # X[all-true mask of the holder's length]: all of X
+                sizes = ("self.scores.size", "self.plate_ids.size", "len(self.scores)", "len(self.plate_ids)", "self.scores.shape[0]", "self.plate_ids.shape[0]",
+                         "self.scores.shape", "self.plate_ids.shape")
+                if isinstance(sl, ast.Call) and U(n.value) in ("self.scores", "self.plate_ids"):
+                    fn_, a_ = U(sl.func), [U(x).replace(" ", "") for x in sl.args]
+                    kw_ = {k.arg: U(k.value) for k in sl.keywords}
+                    if fn_ == "np.ones" and len(a_) == 1 and a_[0] in sizes and kw_ == {"dtype": "bool"}:
+                        return n.value
+                    if fn_ == "np.ones_like" and len(a_) == 1 and a_[0] in ("self.scores", "self.plate_ids") and kw_ == {"dtype": "bool"}:
+                        return n.value
+                    if fn_ == "np.full" and len(a_) == 2 and a_[0] in sizes and a_[1] == "True" and kw_ in ({}, {"dtype": "bool"}):
+                        return n.value
                 return n
         return F().visit(_copy.deepcopy(e))
     wants_u = (N.key(parse_expr("self.plate_ids[self.scores.argmin()].item()")), N.key(parse_expr("self.plate_ids[np.argmin(self.scores)].item()")))
